@@ -2516,6 +2516,8 @@ class Convex:
 
         if not isinstance(other, Real):
             raise TypeError('Incorrect syntax.')
+        if other == 0 and self.xtype in 'NXLPFODT':
+            raise ValueError('Zero multiples of this expression are not supported.')
 
         if self.xtype in 'AMNGIEXLPFKODTC':
             multiplier = self.multiplier * abs(other)
